@@ -33,7 +33,7 @@ theorem semD_congr (N : ℕ) (ρ : ℕ → ℝ) (g g' : Gate)
 
 /-- names whose matrix does not depend on the angle argument -/
 def fixedNm (n : GName) : Bool :=
-  !([GName.RX, .RY, .RZ, .PHASEGATE, .GLOBALPHASE].contains n)
+  !([GName.RX, .RY, .RZ, .PHASEGATE, .GLOBALPHASE, .CRX, .CRY, .CRZ, .CPHASE].contains n)
 
 theorem compactC_fixed (n : GName) (h : fixedNm n = true) (θ θ' : ℝ) : compactC n θ = compactC n θ' := by
   cases n <;> first | rfl | (simp [fixedNm] at h)
